@@ -15,7 +15,7 @@ META = {
     "level": "exploration",
     "rule": ("case = {A: hugr case, B: hugr case, parent choice} or a builder-insert scenario; distinct by JSON; "
              "non-trivial when B has >= 4 nodes and >= 1 of {hole, multi-linked port, order link, metadata}"),
-    "required": ["monitor:insert-iso", "monitor:A-unchanged", "monitor:B-unchanged", "monitor:builder-insert", "feature:insert-into-nested-builder",
+    "required": ["monitor:insert-iso", "monitor:A-unchanged", "monitor:B-unchanged", "monitor:builder-insert", "feature:insert-into-nested-builder", "feature:B-inserted-twice",
                  "feature:B-holes", "feature:B-multilink", "feature:B-order-link", "feature:B-metadata",
                  "feature:B-duplicate-link", "feature:parent-deep", "feature:A-holes",
                  "builder:insert_nested", "builder:insert_cfg", "builder:insert_conditional",
@@ -173,6 +173,20 @@ def check_insert(ctx, case, stratum="insert_hugr"):
     if len(m) != len(mapping):
         ctx.disc(None, "mapping-keys-collide", "m", len(mapping), len(m), stratum=stratum, case=case)
     check_embedding(ctx, sA, sB, snap(A), snap(B), m, parent, stratum, case)
+    if case["parent"] % 3 == 0:
+        # the same B inserted a second time (elsewhere): again an isomorphic copy, and the first copy is part of
+        # "all nodes and links A had before"
+        ctx.feat("feature:B-inserted-twice")
+        sA1 = snap(A)
+        nodes1 = sorted(sA1["nodes"])
+        parent2 = nodes1[(case["parent"] // 3) % len(nodes1)]
+        try:
+            mapping2 = A.insert_hugr(B, Node(parent2))
+        except ParentBeforeChild:
+            ctx.count("refused:ParentBeforeChild")
+        else:
+            m2 = {k.idx: v.idx for k, v in mapping2.items()}
+            check_embedding(ctx, sA1, sB, snap(A), snap(B), m2, parent2, stratum, case)
     holes = bool(nb) and nb[-1] + 1 != len(nb)
     return len(nb) >= 4 and (holes or multi or md or any(k[1] == -1 for k in sB["links"]))
 
